@@ -59,3 +59,34 @@ SPECS = {
  'pow2': {'src': src('pow2'), 'post': ['r[0].val() == p2(%s)' % a0, 'rest_ok(s0, r, 1, 1)'], 'fails': '%s > 63' % a0,
     'hints': ['if s0[0].val() <= 63 { lemma_p2_bits(s0[0].val()); }']},
 }
+
+# ---- exponentiation: exp (= exp.u64), exp.uN (N bits), exp.b (immediate exponent) ---------------------
+# [e, b, ...] -> [b^e, ...]; exp.uN fails iff e >= 2^N (docs: "Fails if xx is outside [0, 63)" is inconsistent with
+# "exp is equivalent to exp.u64"; the failure condition taken here is the bit-length one: e does not fit N bits)
+def _p2hint(n): return 'assert(p2(%d) == %d) by (compute_only);' % (n, 2 ** n)
+for _n in (0, 1, 5, 31, 32, 63):
+    SPECS['exp.u%d' % _n] = {'src': src('exp.u%d' % _n), 'post': ['r[0].val() == fpow(%s, %s)' % (a1, a0), 'rest_ok(s0, r, 2, 1)'],
+                             'fails': '%s >= %d' % (a0, 2 ** _n), 'hints': [_p2hint(_n)]}
+for _name in ('exp', 'exp.u64'):
+    SPECS[_name] = {'src': src(_name), 'never_fails': True, 'post': ['r[0].val() == fpow(%s, %s)' % (a1, a0), 'rest_ok(s0, r, 2, 1)'], 'hints': [_p2hint(64)]}
+for _b in range(0, 8):
+    SPECS['exp.%d' % _b] = {'src': src('exp.%d' % _b), 'never_fails': True, 'post': ['r[0].val() == fpow(%s, %d)' % (a0, _b), 'rest_ok(s0, r, 1, 1)'],
+                            'hints': ['reveal_with_fuel(fpow, 9); assert(fmul(s0[0].val(), 1) == s0[0].val()); assert(fmul(s0[0].val(), 0) == 0); assert(fadd(0, 1) == 1);']}
+# immediates above 7 go through the EXPACC chain with the bit length of the immediate: every power of two and its
+# neighbours up to 2^63, and p - 1
+_BS = sorted(set([8, 9, 15, 16, 17, 31, 32, 255, 256, 257, 65535, 65536, 2 ** 31, 2 ** 32 - 1, 2 ** 32, 2 ** 32 + 1, 2 ** 62, 2 ** 63 - 1, 2 ** 63, 2 ** 63 + 1, 2 ** 64 - 2 ** 32]))
+for _b in _BS:
+    SPECS['exp.%d' % _b] = {'src': src('exp.%d' % _b), 'never_fails': True, 'post': ['r[0].val() == fpow(%s, %d)' % (a0, _b), 'rest_ok(s0, r, 1, 1)'],
+                            'hints': [_p2hint(_b.bit_length())]}
+
+# immediates the assembler special-cases (NOOP / INCR / PAD MUL instead of PUSH + op)
+SPECS['add.0'] = {'src': src('add.0'), 'never_fails': True, 'post': ['r[0].val() == fadd(%s, 0)' % a0, 'rest_ok(s0, r, 1, 1)']}
+SPECS['add.2'] = {'src': src('add.2'), 'never_fails': True, 'post': ['r[0].val() == fadd(%s, 2)' % a0, 'rest_ok(s0, r, 1, 1)']}
+SPECS['sub.0'] = {'src': src('sub.0'), 'never_fails': True, 'post': ['r[0].val() == fsub(%s, 0)' % a0, 'rest_ok(s0, r, 1, 1)']}
+SPECS['sub.1'] = {'src': src('sub.1'), 'never_fails': True, 'post': ['r[0].val() == fsub(%s, 1)' % a0, 'rest_ok(s0, r, 1, 1)']}
+SPECS['mul.0'] = {'src': src('mul.0'), 'never_fails': True, 'post': ['r[0].val() == fmul(%s, 0)' % a0, 'rest_ok(s0, r, 1, 1)']}
+SPECS['mul.1'] = {'src': src('mul.1'), 'never_fails': True, 'post': ['r[0].val() == fmul(%s, 1)' % a0, 'rest_ok(s0, r, 1, 1)']}
+SPECS['mul.2'] = {'src': src('mul.2'), 'never_fails': True, 'post': ['r[0].val() == fmul(%s, 2)' % a0, 'rest_ok(s0, r, 1, 1)']}
+SPECS['div.1'] = {'src': src('div.1'), 'never_fails': True, 'post': ['r[0].val() == %s' % a0, 'rest_ok(s0, r, 1, 1)']}
+SPECS['eq.1'] = {'src': src('eq.1'), 'never_fails': True, 'post': ['r[0].val() == ' + BOOL('%s == 1' % a0), 'rest_ok(s0, r, 1, 1)']}
+SPECS['neq.1'] = {'src': src('neq.1'), 'never_fails': True, 'post': ['r[0].val() == ' + BOOL('%s != 1' % a0), 'rest_ok(s0, r, 1, 1)']}
